@@ -45,6 +45,17 @@ type loopSess struct {
 	blocked      chan struct{} // FromApp has reached the marked message
 	release      chan struct{} // closed by the round: FromApp returns
 	aboutToWrite chan struct{} // ToAdmin has seen the answer to the TestRequest BUSY
+	// drain rounds: the order of FromApp (F<text>) and OnLogout (L) callbacks; OnLogout may be held at a gate
+	cbMu       sync.Mutex
+	cbs        []string
+	inLogout   chan struct{}
+	logoutGate chan struct{}
+}
+
+func (ls *loopSess) cb(t string) {
+	ls.cbMu.Lock()
+	ls.cbs = append(ls.cbs, t)
+	ls.cbMu.Unlock()
 }
 
 type loopApp struct {
@@ -52,7 +63,17 @@ type loopApp struct {
 	ls *loopSess
 }
 
-func (a loopApp) OnLogout(quickfix.SessionID) { atomic.AddInt32(&a.ls.logouts, 1) }
+func (a loopApp) OnLogout(quickfix.SessionID) {
+	atomic.AddInt32(&a.ls.logouts, 1)
+	a.ls.cb("L")
+	if a.ls.logoutGate != nil {
+		select {
+		case a.ls.inLogout <- struct{}{}:
+		default:
+		}
+		<-a.ls.logoutGate
+	}
+}
 func (a loopApp) ToAdmin(m *quickfix.Message, _ quickfix.SessionID) {
 	if t, err := m.Header.GetString(quickfix.Tag(35)); err == nil && t == "0" {
 		if id, err := m.Body.GetString(quickfix.Tag(112)); err == nil && id == "BUSY" {
@@ -64,6 +85,9 @@ func (a loopApp) ToAdmin(m *quickfix.Message, _ quickfix.SessionID) {
 	}
 }
 func (a loopApp) FromApp(m *quickfix.Message, _ quickfix.SessionID) quickfix.MessageRejectError {
+	if v, err := m.Body.GetString(quickfix.Tag(58)); err == nil && v != "BLOCK" {
+		a.ls.cb("F" + v)
+	}
 	if v, err := m.Body.GetString(quickfix.Tag(58)); err == nil && v == "BLOCK" {
 		select {
 		case a.ls.blocked <- struct{}{}:
@@ -452,7 +476,7 @@ const loopRetryBudget = 6
 // can only give up on a healthy engine when the machine is starved for seconds; a broken engine fails every attempt.
 func (c *loopImpl) exec(op string) string {
 	w := strings.Fields(op)
-	if len(w) == 0 || w[0] != "round" {
+	if len(w) == 0 || (w[0] != "round" && w[0] != "drain") {
 		return "bad-op"
 	}
 	kv := map[string]string{}
@@ -461,10 +485,14 @@ func (c *loopImpl) exec(op string) string {
 			kv[q[0]] = q[1]
 		}
 	}
-	obs := guard(func() string { return c.round(kv) })
+	run := c.round
+	if w[0] == "drain" {
+		run = c.drainRound
+	}
+	obs := guard(func() string { return run(kv) })
 	for i := 0; i < 2 && strings.HasPrefix(obs, "stalled") && c.retried < loopRetryBudget; i++ {
 		c.retried++
-		obs = guard(func() string { return c.round(kv) })
+		obs = guard(func() string { return run(kv) })
 	}
 	return obs
 }
@@ -549,6 +577,198 @@ func genLoop(r *rng, tier string, idx int, o *out, do func(string) string) strin
 	return "loop"
 }
 
+// ---------------------------------------------------------------- drain rounds (C08)
+//
+// Op:  drain init=0|1 bs=2|4 incap=N queued=K late=J
+//   a logged-on session on the real run loop whose FromApp is blocked; behind it the peer's Logout and K application
+//   messages (58=m1..mK) are written by a reader that parks on the full inbound channel (capacity N); the loop is released:
+//   the Logout ends the connection while the reader still has messages to hand over.  late=J: OnLogout is held at a gate
+//   while J more messages (58=x1..xJ) arrive, then released.
+// Obs: ok cb=<F<text>|L,…|-> lo=<OnLogout calls> closed=0|1 end=0|1   |   stalled <stage> | panic
+// No clock decides: the harness waits for the callbacks, for the channel to fill and for the connection to be closed.
+func (c *loopImpl) drainRound(kv map[string]string) string {
+	initiator, bs := kv["init"] == "1", kv["bs"]
+	incap, e1 := strconv.Atoi(kv["incap"])
+	queued, e2 := strconv.Atoi(kv["queued"])
+	late, e3 := strconv.Atoi(kv["late"])
+	if e1 != nil || e2 != nil || e3 != nil || (kv["init"] != "0" && kv["init"] != "1") || loopBS[bs] == "" ||
+		incap < 1 || incap > 8 || queued < 0 || queued > 8 || late < 0 || late > 4 {
+		return "bad-op"
+	}
+	ls := c.take(initiator, bs)
+	v := ls.v
+	if late > 0 {
+		ls.logoutGate, ls.inLogout = make(chan struct{}), make(chan struct{}, 1)
+	}
+	rd := newLoopReader()
+	var releaseOnce, gateOnce sync.Once
+	releaseLoop := func() { releaseOnce.Do(func() { close(ls.release) }) }
+	openGate := func() {
+		gateOnce.Do(func() {
+			if ls.logoutGate != nil {
+				close(ls.logoutGate)
+			}
+		})
+	}
+	ended := int32(0)
+	finish := func() {
+		releaseLoop()
+		openGate()
+		done := make(chan struct{})
+		go func() {
+			defer func() { recover(); close(done) }()
+			func() {
+				defer func() { recover() }()
+				v.CloseInbound()
+			}()
+			v.StopAsync()
+		}()
+		if waitCh(done, loopWait) && waitCh(v.Done(), loopWait) {
+			atomic.StoreInt32(&ended, 1)
+		}
+	}
+	stalled := func(stage string) string {
+		finish()
+		if v.Panicked() != "" {
+			return "panic"
+		}
+		return "stalled " + stage
+	}
+	var out <-chan []byte
+	connDone := make(chan error, 1)
+	go func() {
+		o, err := v.ConnectAsync(incap, 8)
+		out = o
+		connDone <- err
+	}()
+	select {
+	case err := <-connDone:
+		if err != nil {
+			return stalled("connect")
+		}
+	case <-time.After(loopWait):
+		return "stalled connect"
+	}
+	go rd.run(out)
+	if !v.Barrier(loopWait) {
+		return stalled("connect")
+	}
+	inSeq := 0
+	var seqMu sync.Mutex
+	inject := func(kind string, extra ...string) {
+		defer func() { recover() }() // the inbound channel may be closed by the end of the round
+		seqMu.Lock()
+		inSeq++
+		n := inSeq
+		seqMu.Unlock()
+		v.Inject(loopInbound(bs, ls.id.SenderCompID, n, kind, extra...))
+	}
+	inject("A", "98=0", "108=3600")
+	if !(waitUntil(func() bool { return v.InboxLen() == 0 }, loopWait) && v.Barrier(loopWait)) {
+		return stalled("logon")
+	}
+	inject("D", "58=BLOCK")
+	if !waitCh(ls.blocked, loopWait) {
+		return stalled("busy")
+	}
+	// the reader: the peer's Logout, then `queued` application messages; it parks on the full channel
+	prodDone := make(chan struct{})
+	go func() {
+		defer close(prodDone)
+		inject("5")
+		for i := 1; i <= queued; i++ {
+			inject("D", "58=m"+strconv.Itoa(i))
+		}
+	}()
+	parkedOrDone := func() bool {
+		select {
+		case <-prodDone:
+			return true
+		default:
+		}
+		return v.InboxLen() >= incap
+	}
+	if !waitUntil(parkedOrDone, loopWait) {
+		return stalled("fill")
+	}
+	time.Sleep(2 * time.Millisecond) // the reader goroutine reaches its next channel send
+	releaseLoop()
+	lateDone := make(chan struct{})
+	if late > 0 {
+		if !waitCh(ls.inLogout, loopWait) {
+			return stalled("onlogout")
+		}
+		go func() {
+			defer close(lateDone)
+			<-prodDone
+			for i := 1; i <= late; i++ {
+				inject("D", "58=x"+strconv.Itoa(i))
+			}
+		}()
+		// at least one late message sits in the channel (or all were handed over) while the application is still in OnLogout
+		waitUntil(func() bool {
+			select {
+			case <-lateDone:
+				return true
+			default:
+			}
+			return v.InboxLen() >= 1
+		}, loopWait)
+		time.Sleep(2 * time.Millisecond)
+		openGate()
+	} else {
+		close(lateDone)
+	}
+	// the engine closes the connection at the end of its disconnect handling
+	closedNow := func() bool { rd.mu.Lock(); defer rd.mu.Unlock(); return rd.closed }
+	if !waitUntil(closedNow, loopWait) {
+		return stalled("disconnect")
+	}
+	if !v.Barrier(loopWait) {
+		return stalled("sync")
+	}
+	lo := atomic.LoadInt32(&ls.logouts)
+	ls.cbMu.Lock()
+	cb := "-"
+	if len(ls.cbs) > 0 {
+		cb = strings.Join(ls.cbs, ",")
+	}
+	ls.cbMu.Unlock()
+	closed := closedNow()
+	finish()
+	if v.Panicked() != "" {
+		return "panic"
+	}
+	b01 := map[bool]int{true: 1, false: 0}
+	return fmt.Sprintf("ok cb=%s lo=%d closed=%d end=%d", cb, lo, b01[closed], atomic.LoadInt32(&ended))
+}
+
+func genDrain(r *rng, tier string, idx int, o *out, do func(string) string) string {
+	init := []string{"0", "0", "1"}[r.intn(3)]
+	bs := []string{"2", "4"}[r.intn(2)]
+	incap := []int{1, 1, 1, 2, 4}[r.intn(5)]
+	queued := []int{2, 3, 3, 4, 6, 1, 0}[r.intn(7)]
+	late := []int{0, 0, 1, 2, 3}[r.intn(5)]
+	if idx < 4 { // fixed shapes first: the default channel capacity with a parked reader, with and without late arrivals
+		incap, queued, late = 1, 3+idx%2, []int{0, 0, 2, 1}[idx]
+	}
+	obs := do(fmt.Sprintf("drain init=%s bs=%s incap=%d queued=%d late=%d", init, bs, incap, queued, late))
+	o.kind("drain.incap=" + strconv.Itoa(incap))
+	if queued > incap {
+		o.kind("drain.reader-parked")
+	}
+	if late > 0 {
+		o.kind("drain.arrivals-during-OnLogout")
+	}
+	w := strings.Fields(obs)
+	o.kind("drain.rounds_" + w[0])
+	if w[0] == "ok" {
+		o.nontrivial(fmt.Sprintf("drain/%s/%d/%d/%d", init, incap, queued, late))
+	}
+	return "drain"
+}
+
 func init() {
 	families["loop"] = &family{newImpl: func() impl { return &loopImpl{} }, gen: genLoop}
+	families["drain"] = &family{newImpl: func() impl { return &loopImpl{} }, gen: genDrain}
 }
